@@ -184,6 +184,11 @@ def apalache_inductive(ctx, module, init, indinit, inv, wrong=None, timeout=900)
     ctx.cov["tlc_runs"].append({"cfg": module, "role": "Apalache: %s is an inductive invariant (base from %s, step from %s); unbounded in every "
                                 "integer%s" % (inv, init, indinit, "; vacuity witness %s rejected" % wrong if wrong else ""),
                                 "wall_s": round(time.time() - t0, 2)})
+    ctx.cov["obligations"] = ctx.cov.get("obligations", 0) + 2
+    ctx.cov["discharged"] = ctx.cov.get("discharged", 0) + 2
+    ctx.cov["checker_cmd"] = ("apalache-mc check --init=%s --inv=%s --length=0 %s ; apalache-mc check --init=%s --inv=%s --length=1 %s"
+                              % (init, inv, module, indinit, inv, module))
+    ctx.cov["trusted_base"] = ["Apalache 0.58 and Z3", "the transcription of %s from the TLC-checked module of the same state machine" % module]
     log("  apalache: %s inductive for %s (unbounded)" % (inv, module))
 
 
